@@ -19,8 +19,16 @@ def tracks_of(na, nv):
 def translate(events):
     """driver events -> stim / got / gone / settled"""
     out = []
+    over = False
     for e in events:
         ev = e["ev"]
+        # the driver tears every socket down after "End": what the server then says belongs to no stimulus
+        if ev == "End":
+            over = True
+        if ev == "New":
+            over = False
+        if over:
+            continue
         if ev == "New":
             out.append({"ev": "New", "name": e.get("name", "")})
         elif ev == "settled":
